@@ -1400,6 +1400,14 @@ func init() {
 			for i := 0; i < n; i++ {
 				out.Line("%s", c05Stress(NewRNG(seed, fmt.Sprintf("c05s-%d", i)), i))
 			}
+			// the requests a scanner builds by itself (continuations, re-opens in the next region):
+			// each carries the priority the scan was built with (scan harness of C06, judged there)
+			rs := NewRNG(seed, "c05-scan-prio")
+			for i := 0; i < 2*n; i++ {
+				c := randCase(rs, 8, 4)
+				cfg := runCfg{hb: rs.Intn(2), maxFrags: 1 + rs.Intn(3), idBase: uint64(1 + 3*rs.Intn(300))}
+				emit(out, c, &chooser{rng: NewRNG(rs.Next(), "script")}, endPlan{kind: "full"}, cfg)
+			}
 		}
 	}
 }
